@@ -7,7 +7,7 @@ LEVEL = "proof"
 MANIFEST = dict(
     level="partial",
     text=("PARTIAL. Proved (Lean 4, all inputs): bounds-instrumented executable models of _jbl_unescape_json_string (both passes), "
-          "_jbl_parse_json_key, _jbl_ptr_pool, iwjson_ftoa, iwatoi2, iwafcmp, iwhex2bin and of the regular-expression VM (vm_add_thread / "
+          "_jbl_parse_json_key, _jbl_ptr_pool, iwjson_ftoa, iwitoa, iwatoi2, iwafcmp, iwhex2bin and of the regular-expression VM (vm_add_thread / "
           "vm_run_with_threads) never touch a cell outside the buffers/arrays they are given and terminate (the models answer `oob` on any "
           "out-of-range access; theorems say `oob` is unreachable: for every NUL-terminated byte string, resp. every well-formed program and "
           "every text); the fill pass of the unescaper stores exactly the bytes the length pass announced; every jp->n[] slot of a parsed "
@@ -21,7 +21,7 @@ MANIFEST = dict(
           "input is run after an adversarial history and again in another order without it (a sample also in a fresh process) and the "
           "canonical outputs must be equal"),
     note=("trusted: Lean kernel, translator, harness/generator, gcc+ASan/UBSan, libc snprintf/strtoll; modelled not verified: the C control flow of "
-          "the functions named; not proved: iwitoa bounds (model exists, differential only), that the regex compiler emits well-formed programs "
+          "the functions named; not proved: that the regex compiler emits well-formed programs "
           "(checked on every compiled program of the run), everything listed under EXPLORATION ONLY; lengths are assumed to fit `int` (< 2^31); "
           "null-pointer arithmetic in the length pass (d = NULL; ++d) is not flagged by gcc's sanitizers and is not modelled; three regex "
           "defects stay open (unbounded repetition counts in parser and compiler, unbounded recursion depth) and are reported as KNOWN-FINDING; "
@@ -31,7 +31,7 @@ MODULE = "IwModel.Props.C17"
 THEOREMS = [
     "IwModel.C17.unescape_safe", "IwModel.C17.unescape_two_pass", "IwModel.C17.unescape_shape_indep", "IwModel.C17.unescape_stores_within",
     "IwModel.C17.unescape_cstring_safe", "IwModel.C17.parse_key_safe", "IwModel.C17.ptr_parse_safe", "IwModel.C17.ptr_parse_cstring_safe",
-    "IwModel.C17.ptr_all_slots_assigned", "IwModel.C17.ftoa_safe", "IwModel.C17.ftoa_old_overrun", "IwModel.C17.atoi2_safe",
+    "IwModel.C17.ptr_all_slots_assigned", "IwModel.C17.itoa_safe", "IwModel.C17.ftoa_safe", "IwModel.C17.ftoa_old_overrun", "IwModel.C17.atoi2_safe",
     "IwModel.C17.afcmp_safe", "IwModel.C17.hex2bin_safe", "IwModel.C17.revm_safe", "IwModel.C17.gen_side_conditions",
 ]
 
